@@ -228,6 +228,8 @@ func (r *Transport) writeLoop() {
 					if reconnectErr := r.reconnect(tr); reconnectErr != nil {
 						r.mu.Unlock()
 						writeOrDone(r.ctx, writeRes{err: fmt.Errorf("reconnect cause[%v]: %w", err, reconnectErr)}, r.writeResCh[data.id])
+						// reconnect attempts exhausted: fail pending and later reads/writes instead of blocking them
+						r.cancel()
 						return
 					}
 					r.mu.Unlock()
@@ -269,6 +271,8 @@ func (r *Transport) readLoop() {
 				if reconnectErr := r.reconnect(tr); reconnectErr != nil {
 					r.mu.Unlock()
 					writeOrDone(r.ctx, &readRes{err: fmt.Errorf("reconnect cause[%v]: %w", err, reconnectErr)}, r.readResCh)
+					// reconnect attempts exhausted: fail pending and later reads/writes instead of blocking them
+					r.cancel()
 					return
 				}
 				r.mu.Unlock()
